@@ -46,6 +46,11 @@ def parse_array(lines_by_R):
                 h = head.split()
                 A.copies[(int(h[1]), int(h[2]), int(h[3]))] = (list(map(int, h[4:8])), tail.split())
                 continue
+            if l[:3] == 'WR ' and ':' in l:
+                head, tail = l.split(':', 1)
+                h = head.split()
+                A.copies[('wr', int(h[1]), int(h[2]))] = tail.split()
+                continue
             if l[:3] == 'MC ' and ':' in l:
                 head, tail = l.split(':', 1)
                 h = head.split()
@@ -135,6 +140,24 @@ def oracle_array_updates(A, V, I, maxlen):
     """C13's clauses on the enumeration: one update per element lands exactly there; index round trip."""
     fails, n, nontriv = [], 0, 0
     Rs = sorted({k[0] for k in A})
+    # every named update wrapper once: element 6, operand 4 (harness/partition_enum.cpp)
+    WNAMES = ['bit_and', 'bit_or', 'bit_xor', 'logical_and', 'logical_or', 'multiplies', 'divides', 'plus', 'minus', 'increment', 'decrement',
+              'set', 'unary_op_update_value(3x+1)', 'visit(v*10+index)', 'untouched', 'untouched', 'untouched']
+    WEXP = [4, 6, 2, 1, 1, 24, 1, 10, 2, 7, 5, 4, 19, 73, 6, 6, 6]
+    copies = getattr(A, 'copies', None) or {}
+    for R in Rs:
+        got = {}
+        for r in range(R):
+            for tok in copies.get(('wr', R, r), []):
+                i, v = tok.split('=')
+                got[int(i)] = got.get(int(i), []) + [int(v)]
+        if not got:
+            if any(k[0] == 'wr' for k in copies):
+                fails.append({'what': 'no wrapper results on %d ranks' % R})
+            continue
+        for i, want in enumerate(WEXP):
+            if got.get(i) != [want]:
+                fails.append({'what': 'array<long> element 6 after async_%s with operand 4 (index %d, %d ranks) is %s, expected %d' % (WNAMES[i], i, R, got.get(i), want), 'R': R})
     for R in Rs:
         for len_ in range(maxlen + 1):
             n += 1
@@ -200,7 +223,7 @@ def oracle_hash(lines_by_R):
     for R, lines in lines_by_R.items():
         per_rank = {}
         for l in lines:
-            if l.startswith(('HI ', 'HS ')) and ':' in l:
+            if l.startswith(('HI ', 'HS ', 'HL ')) and ':' in l:
                 head, tail = l.split(':', 1)
                 h = head.split()
                 per_rank.setdefault(h[0], {})[int(h[2])] = [t.split(',') for t in tail.split()]
@@ -210,7 +233,7 @@ def oracle_hash(lines_by_R):
             ref = byrank[0]
             for j, t in enumerate(ref):
                 n += 1
-                if kind == 'HI':
+                if kind in ('HI', 'HL'):
                     key, hsh, o_map, o_ds = t[0], int(t[1]), int(t[2]), int(t[3])
                     mine = [r for r in range(R) if byrank[r][j][4] == '1']
                     owners = {tuple(byrank[r][j][2:4]) for r in range(R)}
